@@ -445,6 +445,39 @@ func (g *Gen) findEscaping() {
 			}
 		}
 	}
+	// name#k counts declarations in source order (SSA block order is not source order)
+	firstPos := func(a *ssa.Alloc) token.Pos {
+		best := a.Pos()
+		if refs := a.Referrers(); refs != nil {
+			for _, r := range *refs {
+				p := r.Pos()
+				if !p.IsValid() {
+					// synthetic loads/stores: use the block's first positioned instruction
+					for _, in := range r.Block().Instrs {
+						if in.Pos().IsValid() {
+							p = in.Pos()
+							break
+						}
+					}
+				}
+				if p.IsValid() && (!best.IsValid() || p < best) {
+					best = p
+				}
+			}
+		}
+		return best
+	}
+	for _, as := range g.localNames {
+		if len(as) > 1 {
+			sort.SliceStable(as, func(i, j int) bool {
+				pi, pj := firstPos(as[i]), firstPos(as[j])
+				if pi != pj && pi.IsValid() && pj.IsValid() {
+					return pi < pj
+				}
+				return false
+			})
+		}
+	}
 }
 
 func (g *Gen) summariseLoops() {
